@@ -27,16 +27,20 @@ def convTable : List (Nat × Option Nat) :=
 /-! ## the reference scanner
 
 `strict = false`: the reference rules.  `strict = true`: the same rules restricted to the DOMAIN of
-the partial theorem — the scanner additionally gives up (`none`) on exactly the shapes on which
-the unchanged Rust scanner is known to deviate (each is a listed known finding with a witness
-theorem in `Thm.lean`), and on one shape that the text/offset abstraction cannot judge:
+the partial theorem — the scanner additionally gives up (`none`) on the one shape on which the
+Rust scanner is known to deviate (a listed known finding with a witness theorem in `Thm.lean`),
+and on two shapes that lie outside what the scanner can be asked or judged on:
 
-  * a triple-quoted string inside a replacement field                 (triple-quote-in-field)
-  * white space other than blanks after a self-documenting `=`        (selfdoc-nonspace-whitespace)
-  * a backslash in the literal text that opens a format spec, non-raw (spec-escape-not-decoded)
   * a self-documenting field nested in a format spec                  (selfdoc-in-spec-unmerged)
+  * a CR among the white space after a self-documenting `=`: `Py_ISSPACE` would accept it, but
+    neither CPython's reader nor the Rust lexer ever lets a CR through (both turn CR and CRLF
+    into LF), so no source produces such a body;
   * an expression text made of Unicode white space only (e.g. NBSP): the reference goes on to
     reject it as an invalid expression, which this level of abstraction does not see.
+
+(The repaired scanner — triple-quoted strings in fields, any blank after `=`, escapes decoded in
+format specs, empty literal pieces dropped: /repo c09f12b, 897a1b6, 40fcb23, dfa74fc — no longer
+needs the exclusions the first version of this file had.)
 
 Offsets: `off` is the absolute byte offset of the first character of the remaining text.
 Literal values are given in stored form (a lone surrogate escape written U+FFFD, as in C06). -/
@@ -91,10 +95,9 @@ def exprScan (strict : Bool) : Nat → List Nat → List Nat → Option (List Na
     if c = 92 then none                                    -- backslash
     else if c = 39 ∨ c = 34 then
       if cs.take 2 = [c, c] then
-        if strict then none
-        else match closeString c true (cs.drop 2) with
-          | some (s, r) => more (c :: c :: c :: s) stack r
-          | none => none
+        match closeString c true (cs.drop 2) with
+        | some (s, r) => more (c :: c :: c :: s) stack r
+        | none => none
       else match closeString c false cs with
         | some (s, r) => more (c :: s) stack r
         | none => none
@@ -156,10 +159,10 @@ def eqBytes : Option (List Nat) → Nat
   | some ws => 1 + ulen ws
   | none => 0
 
-/-- a self-documenting `=` outside the theorem's domain: white space other than blanks after it,
-    or inside a format spec -/
+/-- a self-documenting `=` outside the theorem's domain: inside a format spec, or followed by a
+    CR (which no source can produce) -/
 def eqOutside (lvl : Nat) : Option (List Nat) → Bool
-  | some ws => !(ws.all (· = 32)) || decide (lvl ≥ 1)
+  | some ws => ws.any (· = 13) || decide (lvl ≥ 1)
   | none => false
 
 /-- one piece list with the literal text still pending in front of it -/
@@ -201,15 +204,15 @@ def field (lookup : List Nat → Option Nat) (strict raw : Bool) :
 
 /-- Literal text and replacement fields, alternating (`fstring_find_literal_and_expr` in a loop).
     At nesting level 0 `{{` and `}}` are literal braces and a single `}` is an error; inside a
-    format spec (`lvl > 0`) a `}` ends the spec.  `seen` = a field has been seen in this list. -/
+    format spec (`lvl > 0`) a `}` ends the spec.  `seen` = a field has been seen in this list (not
+    used by the rules; it marks the two phases of `parse_spec` in the proofs). -/
 def parts (lookup : List Nat → Option Nat) (strict raw : Bool) :
     Nat → Nat → Bool → Acc → List Nat → Nat → Option (List Piece × List Nat × Nat)
   | 0, _, _, _, _, _ => none
   | _ + 1, _, _, acc, [], off => some (acc.flush, [], off)
   | fuel + 1, lvl, seen, acc, c :: cs, off =>
     if c = 92 ∧ ¬ raw then
-      if strict ∧ lvl ≥ 1 ∧ ¬ seen then none
-      else if cs.head? = some 123 ∨ cs.head? = some 125 then
+      if cs.head? = some 123 ∨ cs.head? = some 125 then
         parts lookup strict raw fuel lvl seen { acc with lit := acc.lit ++ [92] } cs (off + 1)
       else match PV.C06.Spec.escape lookup false cs with
         | none => none
